@@ -32,8 +32,8 @@ def configs_for(prop, tier):
     if prop in ('C01', 'C02', 'C04', 'C05'):
         out.append(cfg('update_1pending_held', held=H1, pending=[('p1', 'EQ:A')], weight=300, twins=upd_tw,
                        bound='1 portfolio holding A (1 symbolic builder fill), 1 pending order in A, one update at a symbolic instant'))
-        out.append(cfg('update_2pending', held={'p1': {}}, pending=[('p1', 'EQ:A'), ('p1', 'EQ:B')], weight=500, twins=upd_tw,
-                       bound='1 empty portfolio, 2 pending orders (A, B) of symbolic signed size, one update at a symbolic instant'))
+        out.append(cfg('update_2pending', held={'p1': {}}, pending=[('p1', 'EQ:B'), ('p1', 'EQ:A')], weight=500, twins=upd_tw,
+                       bound='1 empty portfolio, 2 pending orders submitted as (B, A) - not in asset order - of symbolic signed size, one update at a symbolic instant'))
         out.append(cfg('update_zero_fee', held=H1, pending=[('p1', 'EQ:B')], fee='zero', weight=200, twins=upd_tw,
                        bound='ZeroFeeModel; 1 portfolio holding A, 1 pending order in B'))
         out.append(cfg('update_2portfolios', ports=2, held={'p1': {'EQ:A': 1}, 'p2': {}}, pending=[('p1', 'EQ:A'), ('p2', 'EQ:B')], weight=900, twins=upd_tw,
@@ -43,8 +43,8 @@ def configs_for(prop, tier):
                            bound='1 portfolio holding A after 2 symbolic builder fills (partial close / flip included), 2 pending orders in A'))
             out.append(cfg('update_2portfolios_both_holding', ports=2, held=H3, pending=[('p1', 'EQ:B'), ('p2', 'EQ:B')], weight=3000, twins=upd_tw, validate_every=8,
                            bound='2 portfolios (p1 holds A, p2 holds B), one pending order each, one update'))
-            out.append(cfg('update_3pending', held=H2, pending=[('p1', 'EQ:A'), ('p1', 'EQ:B'), ('p1', 'EQ:A')], weight=5000, twins=upd_tw, validate_every=10,
-                           bound='1 portfolio holding A and B, 3 pending orders (A, B, A), one update'))
+            out.append(cfg('update_3pending', held=H2, pending=[('p1', 'EQ:B'), ('p1', 'EQ:A'), ('p1', 'EQ:B')], weight=5000, twins=upd_tw, validate_every=10,
+                           bound='1 portfolio holding A and B, 3 pending orders (B, A, B), one update'))
             out.append(cfg('two_updates_1pending', held=H1, pending=[('p1', 'EQ:A')], op='two_updates', weight=2500, twins=upd_tw, validate_every=5,
                            bound='1 portfolio holding A, 1 pending order, a second order submitted between two updates at symbolic increasing instants'))
     H4 = {'p1': {'EQ:A': 1}, 'p2': {}}
